@@ -38,6 +38,7 @@ from cnfgen.formula.cnfio import guess_output_format
 from cnfgen.clitools.cmdline import paginate_or_redirect_stdout
 from cnfgen.clitools.cmdline import setup_SIGINT
 from cnfgen.clitools.cmdline import CLIParser, CLIError, CLIHelpFormatter
+from cnfgen.clitools.cmdline import SeedAction
 
 from cnfgen.clitools.cmdline import get_formula_helpers
 from cnfgen.clitools.cmdline import get_transformation_helpers
@@ -253,7 +254,7 @@ def setup_command_line_parsers(progname, fhelpers):
                         metavar="<seed>",
                         default=None,
                         type=int,
-                        action='store')
+                        action=SeedAction)
     g = parser.add_mutually_exclusive_group()
     g.add_argument('--verbose',
                    '-v',
@@ -420,8 +421,7 @@ def cli(argv=None, mode='output'):
                 "You did not tell which formula you wanted to generate.\n")
 
         # Generate the formula and apply transformations
-        if hasattr(args, 'seed') and args.seed:
-            random.seed(args.seed)
+        # (the random generator has been seeded while parsing '--seed')
 
         try:
             opb = args.generator.build_formula(args, formula_class=OPB)
